@@ -190,6 +190,11 @@ func (m *TransferShare) handlerTransferShares(
 	from, to common.Address,
 	sharesInt *big.Int,
 ) (*big.Int, *big.Int, error) {
+	// the recipient's delegation is read before the sender's is written back, so sender and
+	// recipient must be different delegations
+	if from == to {
+		return nil, nil, errors.New("cannot transfer shares to the same address")
+	}
 	validator, err := m.stakingKeeper.GetValidator(ctx, valAddr)
 	if err != nil {
 		return nil, nil, err
